@@ -1,11 +1,11 @@
 #!/bin/sh
-# Extract the model and build the replay driver into /verif/.build/ocaml/driver
+# Extract the model and build the replay driver into <verif>/.build/ocaml/driver
 set -e
-OUT=/verif/.build/ocaml
-mkdir -p $OUT
-cd /verif/coq
-cp Extract/Extract.v $OUT/Extract.v
-( cd $OUT && coqc -q -Q /verif/coq GA Extract.v >/dev/null )
-cp /verif/ocaml/driver.ml $OUT/
-cd $OUT
+ROOT=$(cd "$(dirname "$0")/.." && pwd)
+OUT=$ROOT/.build/ocaml
+mkdir -p "$OUT"
+cp "$ROOT/coq/Extract/Extract.v" "$OUT/Extract.v"
+( cd "$OUT" && coqc -q -Q "$ROOT/coq" GA Extract.v >/dev/null )
+cp "$ROOT/ocaml/driver.ml" "$OUT/"
+cd "$OUT"
 ocamlfind ocamlopt -O2 -w -a model.mli model.ml driver.ml -o driver 2>/dev/null || ocamlfind ocamlopt -w -a model.mli model.ml driver.ml -o driver
